@@ -9,6 +9,9 @@ from concurrent.futures import ThreadPoolExecutor
 from . import tlc
 
 
+RUN_ENV = None
+
+
 class DriverError(Exception):
     pass
 
@@ -17,7 +20,7 @@ def run_driver(exe, args, out_prefix, timeout=3600, env=None):
     cmd = [exe] + list(args) + [out_prefix]
     try:
         p = subprocess.run(cmd, stdout=subprocess.PIPE, stderr=subprocess.PIPE, universal_newlines=True,
-                           timeout=timeout, env=env)
+                           timeout=timeout, env=env or RUN_ENV)
     except subprocess.TimeoutExpired:
         raise DriverError('driver timeout: ' + ' '.join(cmd))
     if p.returncode != 0:
